@@ -96,6 +96,13 @@ Print Assumptions C08_no_secret_in_errors.
 Print Assumptions C08_delete_absent_ok.
 Print Assumptions C08_identity_exact.
 
+(* The front door composed with the access decision (Props/Chain_Front.v, proofs in
+   Server/FrontProofs.v) is built and its assumptions are checked with every C08 run. *)
+From Setec Require Props.Chain_Front.
+Print Assumptions Chain_Front.Chain_front_requires_grant.
+Print Assumptions Chain_Front.Chain_front_refusal_blind.
+Print Assumptions Chain_Front.Chain_reject_status.
+
 (* non-vacuity *)
 Definition su_rules := [ {| r_actions := [AGet; AInfo; APut; AActivate; ADelete]; r_secrets := [[42]] |} ].
 Definition w_ok : whois := {| w_fail := false; w_tags := None; w_login := Some 7; w_cap_bare := CapAbsent; w_cap_https := CapRules su_rules |}.
